@@ -73,6 +73,9 @@ CLAIMED = {
  'C19': dict(level=MC, ref='6 C19', technique='TLC model checking of RpcConn (CallWithContext) + trace validation of TLC-driven executions',
    text='TLC checks all orders of cancellation versus response (CtxReturnDone / CtxCancel), that an abandoned call stays harmless when its late response is dispatched; replays cancel contexts at TLC-chosen points with sibling calls in flight and validate each trace; the API observation requires ctx error exactly once.',
    note=CONN_NOTE),
+ 'C20': dict(level=MC, ref='6 C20', technique='TLC model checking of Lifecycle.tla + replay of TLC behaviours on the real Server/Conn/Transport/Client with the abstract state compared after every step',
+   text='Lifecycle.tla models the resources of the four closable objects (listener and accept loop, per-connection server goroutine, handlers and stream handlers, accepted sockets; client socket and reader; housekeeping goroutine and pooled connections; detector, probes, Fallback timers, parked callers) with one action per critical section of the code; TLC checks exhaustively - every interleaving of user-level steps with the library\'s internal steps, every Close up to twice in any order - that a closed participant holds nothing once the library has settled, the return values of repeated Close, and (under fairness) that Server.Close makes Listen return; each of 11 deviations violates an invariant and its counterexample is replayed; behaviours generated by TLC simulation to their terminal states are replayed on the real objects over a counting UNIX socket: after every step the goroutine profile by function, the open sockets per connection, the Close return values and Listen\'s return must equal the projection of the model state, and at the end no goroutine of the library and no socket may be left.',
+   note='Trusted base: TLC; Lifecycle.tla / LifecycleGen.tla; the counting socket; goroutine profiles matched by function name; the harness RoundTripper between Client and Transport (gates detector probes); settle bound 3 s, failing histories re-run alone with 10 s. Bounds: <= 2 direct connections, <= 2 pool slots, <= 5 usage operations, every Close twice.'),
 }
 
 checks = []
